@@ -39,6 +39,11 @@ func c04MultiPath(ctx *Ctx) error {
 			J{"name": "sid", "in": "cookie", "content": J{"text/plain": J{"schema": J{"type": "string"}}}},
 			J{"name": "zz", "in": "cookie", "schema": J{"type": "integer"}}},
 			"responses": J{"204": J{"description": "d"}}}},
+		// three optional query parameters and a required header parameter in one operation: each is sent and bound in its place
+		"/q3": J{"get": J{"operationId": "getQ3", "parameters": []interface{}{
+			J{"name": "limit", "in": "query", "schema": J{"type": "integer"}}, J{"name": "offset", "in": "query", "schema": J{"type": "integer"}},
+			J{"name": "sort", "in": "query", "schema": J{"type": "string"}}, J{"name": "X-Request-Id", "in": "header", "required": true, "schema": J{"type": "string"}}},
+			"responses": J{"204": J{"description": "d"}}}},
 		"/a/{b}/b/{a}/{ab}": J{"get": J{"operationId": "getAb", "parameters": []interface{}{param("ab", num), param("a", str), param("b", str)}, "responses": J{"204": J{"description": "d"}}}},
 	}}
 	type cse struct {
@@ -54,6 +59,8 @@ func c04MultiPath(ctx *Ctx) error {
 		{"NewPostFormRequestWithFormdataBody", []interface{}{"http://h", J{}, J{"v": "from-body", "j": "{\"a\":\"body\"}", "w": "x"}}, J{"params": J{"V": nil, "J": nil}}},
 		{"NewGetCookiesRequest", []interface{}{"http://h", J{"trace": "t-1", "sid": "42", "zz": 7}}, J{"params": J{"Trace": "t-1", "Sid": "42", "Zz": 7}}},
 		{"NewGetCookiesRequest", []interface{}{"http://h", J{"sid": "42"}}, J{"params": J{"Trace": nil, "Sid": "42", "Zz": nil}}},
+		{"NewGetQ3Request", []interface{}{"http://h", J{"limit": 10, "offset": 20, "sort": "asc", "X-Request-Id": "r1"}}, J{"params": J{"Limit": 10, "Offset": 20, "Sort": "asc", "XRequestId": "r1"}}},
+		{"NewGetQ3Request", []interface{}{"http://h", J{"offset": 20, "X-Request-Id": "r2"}}, J{"params": J{"Limit": nil, "Offset": 20, "Sort": nil, "XRequestId": "r2"}}},
 		{"NewGetItemRequest", []interface{}{"http://h", "acme:eu", "12:30"}, J{"tenant": "acme:eu", "item": "12:30"}},
 		{"NewGetItemRequest", []interface{}{"http://h", "a b:c", "x"}, J{"tenant": "a b:c", "item": "x"}},
 	}
